@@ -1,5 +1,6 @@
 use std::collections::{HashMap, HashSet};
 use std::sync::Arc;
+use shared::rule::Rule;
 use shared::triple::Triple;
 use rayon::prelude::*;
 use crate::reasoning::materialisation::replace_variables_with_bound_values;
@@ -44,6 +45,10 @@ impl Reasoner {
                         ));
                         for &rule_id in candidate_rule_ids.iter() {
                             let rule = &self.rules[rule_id];
+                            if !rule.negative_premise.is_empty() {
+                                // Negative stratum: one pass after the fixpoint
+                                continue;
+                            }
                             match rule.premise.len() {
                                 1 => {
                                     // Single-premise rule
@@ -205,6 +210,25 @@ impl Reasoner {
                     self.dataset_index.insert(fact);
                 }
                 delta = new_facts;
+            }
+        }
+
+        drop(dict);
+
+        // Rules with negative premises are evaluated once over the closure of the
+        // positive rules, like in the other strategies.
+        let negative_rules: Vec<Rule> = self
+            .rules
+            .iter()
+            .filter(|rule| !rule.negative_premise.is_empty())
+            .cloned()
+            .collect();
+        if !negative_rules.is_empty() {
+            for fact in self.negative_stratum_pass(&negative_rules, &all_facts) {
+                if all_facts.insert(fact.clone()) {
+                    self.dataset_index.insert(&fact);
+                    inferred_so_far.push(fact);
+                }
             }
         }
 
